@@ -489,7 +489,10 @@ def families(tier):
             'nodes': [[None, None]]}, 64))
     else:
         fams.append(('env-main', 'env', {
-            'n': [1, 2, 3], 'L': [0, 0.5, 1, 2, -1], 'T': T3,
+            'n': [1, 2, 3],
+            'L': {'1': [0, 0.5, 1, 2, -1], '2': [0, 0.5, 1, 2, -1],
+                  '3': [0, 0.5, 2, -1]},
+            'T': T3,
             'Cscalar': SCALAR_CURVES,
             'Clist': ['exp', -4, 'hold', 'sqr'],
             'nodes': [[None, None]]}, 256))
